@@ -149,7 +149,61 @@ def gen_gwcs_geom(rng, t, vacorr=None):
                 va_scale=rng.choice([1.0, 1.0, 1.00008, 0.99995]))
 
 
+_DISTORT = {}
+
+
+def _distortion_models():
+    """detector-plane shear that grows across the chip: (x, y) -> (x0 + (x - x0) (1 + a (y - y0)), y), with its exact
+    inverse; makes the local scale of the detector -> tangent-plane map vary with y (sqrt(1 + a (y - y0)))."""
+    if not _DISTORT:
+        from astropy.modeling import Model, Parameter
+
+        class ShearFwd(Model):
+            n_inputs = 2
+            n_outputs = 2
+            a = Parameter(default=0.0)
+            x0 = Parameter(default=0.0)
+            y0 = Parameter(default=0.0)
+
+            @staticmethod
+            def evaluate(x, y, a, x0, y0):
+                return x0 + (x - x0) * (1.0 + a * (y - y0)), y * 1.0
+
+            @property
+            def inverse(self):
+                return ShearInv(a=self.a.value, x0=self.x0.value, y0=self.y0.value)
+
+        class ShearInv(Model):
+            n_inputs = 2
+            n_outputs = 2
+            a = Parameter(default=0.0)
+            x0 = Parameter(default=0.0)
+            y0 = Parameter(default=0.0)
+
+            @staticmethod
+            def evaluate(x, y, a, x0, y0):
+                return x0 + (x - x0) / (1.0 + a * (y - y0)), y * 1.0
+
+            @property
+            def inverse(self):
+                return ShearFwd(a=self.a.value, x0=self.x0.value, y0=self.y0.value)
+        _DISTORT['fwd'], _DISTORT['inv'] = ShearFwd, ShearInv
+    return _DISTORT['fwd']
+
+
 def build_gwcs(I, g):
+    if g.get('distort'):
+        # a DISTORTED detector -> V2V3 map (the repository's mock is affine): local scale varies over the detector
+        import gwcs
+        from tweakwcs.tests.helper_correctors import make_mock_jwst_pipeline
+        pipeline = make_mock_jwst_pipeline(g['v2ref'], g['v3ref'], g['roll'], list(g['crpix']),
+                                           [[g['cd'], 0.0], [0.0, g['cd']]], list(g['crval']), g['vacorr'])
+        shear = _distortion_models()(a=g['distort'], x0=g['crpix'][0], y0=g['crpix'][1])
+        pipeline[0] = (pipeline[0][0], shear | pipeline[0][1])
+        w = gwcs.wcs.WCS(pipeline)
+        w.bounding_box = ((-0.5, g['shape'][0] - 0.5), (-0.5, g['shape'][1] - 0.5))
+        w.array_shape = (g['shape'][1], g['shape'][0])
+        return w
     va = g.get('va_scale', 1.0)
     if g['vacorr'] and va != 1.0:
         # a NON-trivial velocity-aberration step v2v3 -> v2v3vacorr (uniform scale about the reference point), as
